@@ -2219,8 +2219,11 @@ static Boolean SymbolAdder(PTree* PDest, PTree Neu, void* pData) {
                             &NewEntry->SymWert.Contents.str,
                             &(*Node)->SymWert.Contents.str)))
                 || ((NewEntry->SymWert.Typ == TempFloat)
-                    && (NewEntry->SymWert.Contents.Float
-                        != (*Node)->SymWert.Contents.Float))
+                    && (NewEntry->SymWert.Contents.Float != (*Node)->SymWert.Contents.Float)
+                    /* NaN differs from itself: an unchanged NaN must not force passes for ever */
+                    && !((NewEntry->SymWert.Contents.Float != NewEntry->SymWert.Contents.Float)
+                         && ((*Node)->SymWert.Contents.Float
+                             != (*Node)->SymWert.Contents.Float)))
                 || ((NewEntry->SymWert.Typ == TempInt)
                     && (NewEntry->SymWert.Contents.Int
                         != ((*Node)->Moved ? (*Node)->EnteredValue
